@@ -133,6 +133,19 @@ def lengthListFlags (name : String) : Option (Bool × Bool) :=
 def validateLengthList (name : String) (toks : List LTok) : Option (Option (Spec × Spec)) :=
   (lengthListFlags name).map fun f => lengthList f.1 f.2 toks
 
+/-! ### `opacity`: a clamp, not a range -/
+
+/-- `min(1, max(0, v))`. -/
+def clamp01 (v : Rat) : Rat :=
+  let m := if 0 < v then v else 0      -- max(0, v)
+  if m < 1 then m else 1               -- min(1, m)
+
+/-- `opacity(token)` (`@single_token`): a number or a percentage, clamped to [0, 1]. -/
+def opacityValidate : LTok → Option Rat
+  | .number v => some (clamp01 v)
+  | .percentage v => some (clamp01 (v / 100))
+  | _ => none
+
 /-! ### `image-resolution`: `get_resolution` (css/utils.py) and what the value is used for -/
 
 /-- `RESOLUTION_TO_DPPX[unit]` = `{'dppx': 1, 'dpi': 1 / LENGTHS_TO_PIXELS['in'], 'dpcm': 1 / LENGTHS_TO_PIXELS['cm']}`
